@@ -87,7 +87,8 @@ def get_q(data, input_index, axis, axis_index, interval):
     """
     p0 = 0
     p1 = 1
-    var = verif.field.Quantile(interval.lower)
+    level = interval.upper if np.isinf(interval.lower) else interval.lower
+    var = verif.field.Quantile(level)
     [obs, q] = data.get_scores([verif.field.Obs(), var], input_index, axis, axis_index)
 
     return [obs, q]
@@ -1345,7 +1346,8 @@ class QuantileScore(Metric):
     def compute_single(self, data, input_index, axis, axis_index, interval):
         [obs, pred_q] = get_q(data, input_index, axis, axis_index, interval)
         err = obs - pred_q
-        qs = err * (interval.lower - (err < 0))
+        level = interval.upper if np.isinf(interval.lower) else interval.lower
+        qs = err * (level - (err < 0))
         return np.mean(qs)
 
     def label(self, variable):
